@@ -321,6 +321,17 @@ def _watched_modules():
         yield name, m
 
 
+_FUNCTION = type(lambda: None)
+
+
+def _show(tok):
+    if isinstance(tok, int):
+        return f"object@{tok:x}"
+    if isinstance(tok, tuple) and tok and tok[0] == "fn":
+        return f"function(code@{tok[1]:x}, closure {[f'{c:x}' for c in tok[5]]})"
+    return tok
+
+
 class ModState:
     """fast hash per namespace + slow detail on demand"""
 
@@ -335,6 +346,15 @@ class ModState:
         if type(v) in _SCALARS:
             r = repr(v)
             return r if len(r) < 120 else (type(v).__name__, len(r), hash(v))
+        if type(v) is _FUNCTION:
+            # a plain function IS its code object, its defaults and the objects its closure captured: a binding that is set again
+            # to a function re-created from the same `def` over the same captured objects (an idempotent patch applied once more)
+            # is the same state; a wrapper around another function, or the original put back / not put back, is not
+            try:
+                cells = tuple(id(c.cell_contents) for c in (v.__closure__ or ()))
+            except ValueError:          # empty cell
+                return id(v)
+            return ("fn", id(v.__code__), id(v.__globals__), repr(v.__defaults__)[:200], repr(v.__kwdefaults__)[:200], cells)
         return id(v)
 
     def _namespaces(self):
@@ -376,7 +396,7 @@ class ModState:
                 for k, tok in old.items():
                     if det.get(k, "<deleted>") != tok:
                         v = d.get(k)
-                        changes[f"{ns}.{k}"] = (tok if isinstance(tok, (str, tuple)) else f"object@{tok:x}",
+                        changes[f"{ns}.{k}"] = (_show(tok),
                                                  "<deleted>" if k not in d else (det[k] if type(v) in _SCALARS else f"{type(v).__name__} {_name(v)}"))
             self.fast[ns] = h
             self.detail[ns] = det
